@@ -101,6 +101,8 @@ def run(run, model, proof):
                     nm = nm2
             used.add(nm)
             ren.append((nm, d, m))
+        # logs linked to an earlier one: a platform log id that differs from the entry id (names are made of the entry id)
+        ren = [(nm, dirgen.set_ids(d, plid=rng.randrange(1 << 32)) if (m["kind"] == "pel" and rng.random() < 0.5) else d, m) for nm, d, m in ren]
         files = ren
         eids = [m["eid"] for _, _, m in files if m["kind"] == "pel"]
         e = rng.choice(eids) if eids and rng.random() < 0.7 else rng.randrange(1 << 32)
@@ -197,6 +199,11 @@ def run(run, model, proof):
             for c in created:
                 base = os.path.basename(c)
                 ok = os.path.dirname(c) == outdir and base.endswith(".json") and any(base.startswith(w + ".") and len(base) == len(w) + 1 + 8 + 5 for w in walk)
+                # <file name>.<ENTRY id of that file>.json
+                eid_of = {f[0]: "%08X" % int.from_bytes(f[1][44:48], "big") for f in files if len(f[1]) >= 48}
+                src_names = [w for w in walk if base.startswith(w + ".") and len(base) == len(w) + 1 + 8 + 5]
+                if ok and src_names and all(w in eid_of and base[len(w) + 1:len(w) + 9].upper() != eid_of[w] for w in src_names):
+                    ok = False
                 if not ok:
                     run.violation("json-names", "--json created %r" % c, dict(rp, kind="S"))
             if removed and not clean:
